@@ -177,6 +177,16 @@ const prelude = `(set-option :produce-models true)
 (declare-fun clean (Str) Bool)
 (declare-fun wf (Str) Bool)
 (declare-fun sgr (Str) Bool)
+(declare-fun sgrch (Str) Bool)
+(declare-fun sgrs (Str) Bool)
+(declare-fun p1 (Str) Bool)
+(declare-fun mxl (Str) Int)
+(declare-fun fstl (Str) Int)
+(declare-fun lstl (Str) Int)
+(declare-fun mmin (Str) Int)
+(define-fun min2 ((a Int) (b Int)) Int (ite (<= a b) a b))
+(declare-fun nsc (Str) Int)
+(define-fun max2 ((a Int) (b Int)) Int (ite (>= a b) a b))
 (declare-fun digits (Str) Bool)
 (declare-fun noNL (Str) Bool)
 (declare-fun noCTL (Str) Bool)
